@@ -3,7 +3,8 @@ import base64
 from props.util import *
 from props import wire
 
-TRUSTED = BASE_TRUSTED + ["ed25519-zebra and ed25519-dalek are ORACLES (direct calls through the harness): the model covers what strand adds around them (fixed-size borsh arrays, strict decode, base64 STANDARD_NO_PAD strings, pass-through of sign/verify)",
+TRUSTED = BASE_TRUSTED + ["wrapper theorems treat ed25519-zebra / ed25519-dalek as abstract primitives (Section parameters); the wrapper tie answers them by direct library calls through the harness",
+                          "Model/Ed25519.v is an executable RFC 8032 model (Gallina SHA-512 + edwards25519 arithmetic + both libraries' verification rules) tied to the libraries by correspondence: it removes the oracle for key derivation, signing and verification decisions on the sampled cases, but the curve's group law is not proved",
                           "rejection of bit-flipped messages/signatures/keys is Ed25519's unforgeability (computational): observed on the implementation, not a theorem"]
 RULE = ("keys from scripted RNG (both frontends, same seed bytes), messages of length 0, 1, 31..65 and 4 KiB (64 KiB thorough): "
         "sign / verify / (de)serialize / to_string / from_string of both frontends compared with the Gallina wrapper+base64 model "
@@ -144,6 +145,41 @@ def run(env):
         items.append((c, D, "sig_deserialize", [K[c["_k"]], c["args"][1], []], o if o == "err" else "x:bad"))
         if o != "err":
             env.violation("%s accepts %d bytes" % (c["op"], len(wire.unhx(c["args"][1]))), {"kind": "battery", "case": c, "out": o})
+    # ---- Ed25519 itself: the Gallina RFC 8032 model (Model/Ed25519.v: SHA-512, edwards25519 arithmetic, both
+    # libraries' verification rules) recomputes public keys, signatures and verification decisions
+    ed = []
+    for (sk_, pk_), c_ in zip(keys, g[::2]):
+        ed.append((c_, "R", "ed_pk", [sk_], pk_))
+        ed.append((c_, "R", "ed_pk_unreduced", [sk_], pk_))
+    sg_items = [(st[i], "R", "ed_sign", [st[i]["args"][1], st[i]["args"][2]], so[i]) for i in range(0, len(st), 2)
+                if len(st[i]["args"][2]) < 20000]
+    r.shuffle(sg_items)
+    ed += sg_items[: (12 if env.quick else 120)]
+    vf = {}
+    for c_, o_ in zip(vt, vo):
+        vf.setdefault(c_["tag"], []).append((c_, "R", "ed_verify_" + c_["args"][0], c_["args"][1:], "err" if o_ == "de_err_pk" else o_))
+    for tag, lst in sorted(vf.items()):
+        lst = [x for x in lst if len(x[3][2]) < 20000]
+        r.shuffle(lst)
+        ed += lst[: (10 if env.quick else 100)]
+    # adversarial encodings: small-order and non-canonical points as A and R, S >= l
+    Pf = 2 ** 255 - 19
+    Lq = 2 ** 252 + 27742317777372353535851937790883648493
+    special = [(1).to_bytes(32, "little"), bytes(32), (Pf - 1).to_bytes(32, "little"), Pf.to_bytes(32, "little"), (Pf + 1).to_bytes(32, "little"),
+               (1 + 2 ** 255).to_bytes(32, "little"), bytes.fromhex("26e8958fc2b227b045c3f489f2ef98f0d5dfac05d3c63339b13802886d53fc05"),
+               bytes.fromhex("c7176a703d4dd84fba3c0b760d10670f2a2053fa2c39ccc64ec7fd7792ac037a"),
+               bytes.fromhex("ecffffffffffffffffffffffffffffffffffffffffffffffffffffffffffff7f"), bytes.fromhex("eeffffffffffffffffffffffffffffffffffffffffffffffffffffffffffff7f")]
+    Sv = int.from_bytes(sb[32:], "little")
+    adv = [(pk, hexb(sb[:32] + (Sv + Lq).to_bytes(32, "little")), hexb(m))]
+    for sp in special[: (4 if env.quick else len(special))]:
+        adv += [(hexb(sp), sig, hexb(m)), (hexb(sp), hexb(sp + bytes(32)), hexb(m)), (pk, hexb(sp + sb[32:]), hexb(m))]
+    av = [{"ctx": "S", "op": "verify", "args": [fe, a_, b_, c_], "tag": "adversarial-encoding"} for (a_, b_, c_) in adv for fe in "zd"]
+    for c_, o_ in zip(av, env.harness(av)):
+        ed.append((c_, "R", "ed_verify_" + c_["args"][0], c_["args"][1:], "err" if o_ == "de_err_pk" else o_))
+    env.note("Ed25519 model correspondence: %d cases (public keys, signatures, verification decisions incl. small-order / non-canonical encodings)" % len(ed))
+    fails_ed = env.tie(ed, "C20-ed25519")
+    if fails_ed:
+        env.tie_violation("C20-ed25519 (Model/Ed25519.v vs ed25519-zebra / ed25519-dalek through strand's wrappers)", fails_ed)
     # plain base64 model against Python's implementation on random data (model conformance)
     b64 = [{"ctx": D, "op": "b64_encode", "args": [hexb(r.randbytes(n))], "tag": "b64"} for n in range(0, 70)]
     itb = [(c, D, "b64_encode", c["args"], hexb(base64.b64encode(wire.unhx(c["args"][0])).rstrip(b"="))) for c in b64]
